@@ -346,4 +346,7 @@ def call(fn):
     except (core.Abort, core.Unsupported):
         raise
     except Exception as e:      # noqa
+        if isinstance(e, TypeError) and any(k in str(e) for k in ("'SText'", "'SNum'", "'SBool'", 'SText', 'SNum')):
+            # a C-level routine (re, struct, ...) was handed a symbolic value: modelling gap, not library behaviour
+            raise core.Unsupported(f"symbolic value reached a C boundary: {e}")
         return None, e
